@@ -12,6 +12,7 @@ from vf.simk.world import World, FD
 
 ID = "C11"
 LEVEL = "exploration"
+ALT_MOUNT = True          # run once more with procfs mounted at /hostproc (vf/child.py)
 V4 = ["0.0.0.0", "127.0.0.1", "10.1.2.3", "255.255.255.255"]
 V6 = ["::", "::1", "::ffff:127.0.0.1", "fe80::1", "2001:db8::ff"]
 PORTS = [0, 1, 22, 65535]
